@@ -152,7 +152,7 @@ def c15_node(o, nid, nr, T):
     # ---- input side
     if nr.type in ("machine", "splitter"):
         n_in = len(node.in_edges)
-        pulls = [ii for _, _, ii, _ in nr.pulls]
+        pulls = [x[2] for x in nr.pulls]
         pol = o.pol(nid, "in")
         rec = list(node.stats.get("in_edge_selection", []))
         if pol == "FIRST_AVAILABLE":
@@ -173,7 +173,7 @@ def c15_node(o, nid, nr, T):
     # ---- output side
     n_out = len(node.out_edges)
     pol = o.pol(nid, "out")
-    pushes = [oi for _, _, oi, _ in nr.pushes]
+    pushes = [x[2] for x in nr.pushes]
     rec = list(getattr(node, "stats", {}).get("out_edge_selection", [])) if nr.type != "source" else None
     if pol == "FIRST_AVAILABLE":
         if nr.blocking:
@@ -199,34 +199,41 @@ def c15_node(o, nid, nr, T):
     o.probe("c15_out_checked")
 
 
+def _round_tokens(o, nid, kind, tokid):
+    """Tokens of the same request round as the used one: issued by the node in the same kernel event."""
+    byid = {tk.id: tk for tk in o.run.toks.values()}
+    used = byid.get(tokid)
+    if used is None:
+        return None, []
+    return used, [tk for tk in byid.values() if tk.actor == nid and tk.kind == kind and tk.seq == used.seq and tk is not used]
+
+
 def c15_first_available_in(o, nid, nr):
-    """At the moment of the get, no lower-index in-edge of the same request round had a granted token."""
-    toks = [tk for tk in o.run.toks.values() if tk.actor == nid and tk.kind == "g"]
-    for seq, t, ii, iid in nr.pulls:
-        for tk in toks:
+    """At the moment of the choice no request of the same round on a lower-index in-edge was already granted."""
+    for seq, t, ii, iid, tokid in nr.pulls:
+        used, others = _round_tokens(o, nid, "g", tokid)
+        for tk in others:
             j = o.in_idx.get((nid, tk.edge))
             if j is None or j >= ii:
                 continue
-            if tk.seq <= seq and (tk.end_seq is None or tk.end_seq >= seq) and tk.granted_seq is not None and tk.granted_seq <= seq \
-                    and tk.state == "cancelled" and tk.end_t == t:
+            # granted strictly before the kernel event in which the node chose (its get) => it was triggered at the choice
+            if tk.granted_seq is not None and tk.granted_seq < used.end_seq and tk.state == "cancelled":
                 o.violate("C15", "first-available-in", o.nlabel(nid), f"{nid} pulled {iid} from in-edge {ii} at t={t} although its request on lower in-edge {j} was already granted")
                 return
+    o.probe("c15_fa_in_rounds_checked", len(nr.pulls))
 
 
 def c15_first_available_out(o, nid, nr):
-    toks = [tk for tk in o.run.toks.values() if tk.actor == nid and tk.kind == "p"]
-    for seq, t, oi, iid in nr.pushes:
-        for tk in toks:
+    for seq, t, oi, iid, tokid in nr.pushes:
+        used, others = _round_tokens(o, nid, "p", tokid)
+        for tk in others:
             j = o.out_idx.get((nid, tk.edge))
             if j is None or j >= oi:
                 continue
-            if tk.seq <= seq and tk.granted_seq is not None and tk.granted_seq <= seq and tk.state == "cancelled" and tk.end_t == t \
-                    and tk.end_seq <= seq:
-                # several workers may run rounds concurrently: only blame a token issued in the same instant-round as the used one
-                o.probe("c15_fa_out_lower_granted_cancelled")
-                if o.nrec[nid].spec.get("wc", 1) == 1:
-                    o.violate("C15", "first-available-out", o.nlabel(nid), f"{nid} pushed {iid} to out-edge {oi} at t={t} although its request on lower out-edge {j} was already granted")
-                    return
+            if tk.granted_seq is not None and tk.granted_seq < used.end_seq and tk.state == "cancelled":
+                o.violate("C15", "first-available-out", o.nlabel(nid), f"{nid} pushed {iid} to out-edge {oi} at t={t} although its request on lower out-edge {j} was already granted")
+                return
+    o.probe("c15_fa_out_rounds_checked", len(nr.pushes))
 
 
 def c15_nonblocking_fa(o, nid, nr, rec, pushes):
@@ -462,7 +469,7 @@ def c17_source_activity(o, nid, nr, node, T):
     vs = o.run.vsrc.get((nid, "iat"))
     spec = nr.spec["iat"]
     # generation instants: blocking source: previous push + iat; they are observable through the pushes
-    pushes = [t for _, t, _, _ in nr.pushes]
+    pushes = [x[1] for x in nr.pushes]
     if not nr.blocking:
         return
     vals = [c[2] for c in vs.calls] if vs is not None else None
